@@ -43,8 +43,14 @@ ASSUMPTIONS = ['IEEE overflow is outside the property: non-finite output of the 
                "ODL's eps fudges (lam*(1-1e-14), ||x||*(1+1e-14)) are model parameters; theorems are "
                'stated for eps = 0',
                'Lambert-W (KL cross entropy), SVD (nuclear norm): no executable model, oracle only; '
-               'vector Huber, group L1-L2 (pwNorm), array-weighted simplex (simplexTauW), separable '
-               'sums and the Fn tree evaluator: executed and compared, no optimality theorem',
+               'array-weighted simplex (simplexTauW) and the calculus nodes of the Fn tree evaluator: '
+               'executed and compared, no optimality theorem about the executed evaluator (round 4: '
+               'vector Huber incl. gamma = 0, group L1-L2 and the group ball (pwNorm) and the '
+               'separable-sum node now have theorems; their objective groupObj is executed and '
+               'compared with the real functional + space norm on the stream group-objective)',
+               'group theorems: np.sqrt is a parameter assumed exact on squares; the driver reports '
+               'per input (sq=1) whether every point-wise norm was a rational square, i.e. whether '
+               'the hypotheses of the theorems hold literally on that input',
                'malformed stream (negative left scalar, negative quadratic coefficient, step kinds the '
                'proximal does not take): compared with the model\'s err:/unsupported outcome, not judged',
                'the oracle probes are a test: optimality for ALL z is what the Lean theorems state '
@@ -75,7 +81,8 @@ EXPECTED_BRANCHES_BASE = (['steps/{}/{}'.format(f, n) for f in ('list', 'tuple',
 
 
 def EXPECTED_BRANCHES_ALL(ctx):
-    return list(EXPECTED_BRANCHES_BASE) + direct_branches() + sorted(set(e[0] for e in edge_cases()))
+    return (list(EXPECTED_BRANCHES_BASE) + direct_branches() + sorted(set(e[0] for e in edge_cases()))
+            + list(GROUP_BRANCHES))
 MODEL_TOKENS = {'l1', 'l1l2', 'l2', 'l2sq', 'ccl1', 'ccl1l2', 'ccl2sq', 'box', 'const', 'izero', 'linf',
                 'cclinf', 'simplex', 'sumc', 'huber', 'huberg', 'klcc', 'trans', 'argscale', 'lscale', 'quad',
                 'conj', 'sep', 'nil', 'comp'}
@@ -1811,9 +1818,239 @@ def run(ctx, deep=False):
             ctx.disagree(rec_desc(rec), 'threshold feasible (sum = diameter)', ans[:200],
                          stream='simplex-feasibility')
     run_malformed(ctx)
+    run_group_objective(ctx)
     ctx.extra['functional_labels_exercised'] = len(seen_labels)
     ctx.extra['unhit_model_branches'] = sorted(t for t in MODEL_TOKENS
                                                if ('model/' + t) not in ctx.branches)
+
+
+# ---------------------------------------------------------------------------
+# stream `group-objective` (round 4): the objective of the group proximals on power spaces
+
+GROUP_KEYS = ['rn3^2', 'rn2^3', 'discr4^2_cell0.25', 'discr3^2_cell2', 'rn2^2_pwconst3',
+              'rn2^2_pwarr', 'discr4^2_pwconst0.5', 'rn3^1']
+GROUP_BRANCHES = (['group-objective/l1l2/' + b for b in ('zeroed', 'shrunk', 'threshold')] +
+                  ['group-objective/huberg/' + b for b in ('inner', 'outer', 'threshold',
+                                                           'gamma0-zeroed', 'gamma0-shrunk')] +
+                  ['group-objective/' + b for b in ('sq=1', 'sq=0', 'exact', 'tolerance',
+                                                    'data-term', 'zero-group')] +
+                  ['group-objective/space/' + k for k in GROUP_KEYS])
+_FAM = {}
+
+
+def _fsqrt(q):
+    """Exact rational square root of a Fraction or None."""
+    from fractions import Fraction
+    q = Fraction(q)
+    if q < 0:
+        return None
+    a, b = math.isqrt(q.numerator), math.isqrt(q.denominator)
+    return Fraction(a, b) if a * a == q.numerator and b * b == q.denominator else None
+
+
+def group_families(pw):
+    """Small integer vectors v (one entry per component) whose pw-weighted 2-norm is rational:
+    {norm: [v, ...]} (without the zero vector)."""
+    import itertools
+    key = tuple(pw)
+    if key not in _FAM:
+        fam = {}
+        for v in itertools.product(range(-12, 13), repeat=len(pw)):
+            if not any(v):
+                continue
+            r = _fsqrt(sum(core.frac(w) * a * a for w, a in zip(pw, v)))
+            if r is not None:
+                fam.setdefault(r, []).append(v)
+        _FAM[key] = fam
+    return _FAM[key]
+
+
+def group_vector(rng, pw, d, m, mode, thr):
+    """Flat element of X^d (component after component) whose point-wise groups are
+    mode 'square': vectors with a rational pw-norm, scaled by powers of two;
+    mode 'pow2': all norms are thr * 2^j (every float operation of the l1l2 path is exact);
+    mode 'threshold': norms equal to thr exactly where possible; mode 'generic': dyadic noise."""
+    fam = group_families(pw)
+    groups = []
+    for i in range(m):
+        if mode == 'generic' or not fam:
+            groups.append([dy(rng, -16, 16, 4) for _ in range(d)])
+            continue
+        if rng.random() < 0.15:
+            groups.append([0.0] * d)
+            continue
+        if mode in ('pow2', 'threshold'):
+            # norms r0 * 2^j with r0 the odd part of thr's family
+            cands = [r for r in fam if pow2(float(r / core.frac(thr)))]
+            if not cands:
+                r = rng.choice(sorted(fam))
+            else:
+                r = core.frac(thr) if (mode == 'threshold' and core.frac(thr) in fam) \
+                    else rng.choice(sorted(cands))
+            v = rng.choice(fam[r])
+            sc = 1.0 if mode == 'threshold' else 2.0 ** rng.randint(-1, 2)
+        else:
+            r = rng.choice(sorted(fam))
+            v = rng.choice(fam[r])
+            sc = 2.0 ** rng.randint(-2, 1)
+        groups.append([float(a) * sc for a in v])
+    return [groups[i][k] for k in range(d) for i in range(m)]
+
+
+def group_cases(rng, quick):
+    """(spec, sigma, x, z, x-class).  Systematic over spaces x kinds x classes."""
+    out = []
+    reps = 1 if quick else 3
+    for key in GROUP_KEYS:
+        sp = zoo()[key]
+        d, m = len(sp), fsize(sp) // len(sp)
+        pw = pw_of(sp)
+        fam = group_families(pw)
+        norms = sorted(fam)
+        odd = [r for r in norms if r > 0][:1] or [1]
+        for rep in range(reps):
+            r0 = float(rng.choice(norms[:6])) if norms else 1.0
+            # --- lam * GroupL1Norm(., 2)(. - g): proximal_l1_l2
+            for mode in ('square', 'pow2', 'threshold', 'generic'):
+                lam = rng.choice([0.5, 1.0, 2.0])
+                thr = r0 * rng.choice([0.5, 1.0, 2.0]) if mode != 'generic' else rng.choice([0.75, 1.5])
+                sg = thr / lam
+                g = None
+                if mode == 'square' and rng.random() < 0.6:
+                    g = group_vector(rng, pw, d, m, 'square', thr)
+                xv = group_vector(rng, pw, d, m, mode, thr)
+                if g is not None:   # x - g has the structured groups
+                    xv = [a + b for a, b in zip(xv, g)]
+                zv = group_vector(rng, pw, d, m, 'generic' if mode == 'generic' else 'square', thr)
+                if g is not None:
+                    zv = [a + b for a, b in zip(zv, g)]
+                out.append((['proximal_l1_l2', key, lam, g], sg, xv, zv, 'l1l2/' + mode))
+            # --- Huber(., gamma), gamma = 0 included
+            for mode in ('square', 'pow2', 'threshold', 'generic'):
+                for gam in (0.0, rng.choice([0.5, 1.0, 1.5])):
+                    tot = r0 * rng.choice([1.0, 2.0, 4.0]) if mode != 'generic' else gam + 1.25
+                    if tot <= gam:
+                        tot = gam + r0
+                    sg = tot - gam
+                    xv = group_vector(rng, pw, d, m, mode, tot)
+                    zv = group_vector(rng, pw, d, m, 'generic' if mode == 'generic' else 'square', tot)
+                    out.append((['Huber', key, gam], sg, xv, zv, 'huberg/' + mode))
+    return out
+
+
+def group_check(spec, sg, xv, zv):
+    """Real code only.  Returns (info, problem-or-None): the proximal point, the objective
+    f(v) + ||v - x||^2 / (2 sigma) (the functional and the space norm evaluated by ODL) at z and at
+    p, and the ORACLE obj(p) + ||z - p||^2/(2 sigma) <= obj(z) (strong convexity at the minimiser)."""
+    info = {'status': 'ok'}
+    try:
+        case = build(spec)
+        case.spec = spec
+        S = case.space
+        x, z = unflat(S, xv), unflat(S, zv)
+        p = case.factory(sg)(x)
+        if p not in S:
+            return info, 'prox(x) is not an element of the space'
+        fz, fp = float(case.feval(z)), float(case.feval(p))
+        qz = float((z - x).inner(z - x)) / (2.0 * sg)
+        qp = float((p - x).inner(p - x)) / (2.0 * sg)
+        qzp = float((z - p).inner(z - p)) / (2.0 * sg)
+    except Exception as e:  # noqa
+        info['status'] = 'err:' + type(e).__name__
+        return info, 'raised {}: {}'.format(type(e).__name__, str(e)[:200])
+    info.update(case=case, p=flat(p), objz=fz + qz, objp=fp + qp, qzp=qzp)
+    scale = max(1.0, abs(fz + qz), abs(fp + qp))
+    if not (fp == fp and abs(fp) != float('inf')):
+        return info, 'f(prox(x)) = {!r} is not finite'.format(fp)
+    if fp + qp + qzp > fz + qz + 1e-9 * scale:
+        return info, ('objective at p = prox(x) plus ||z-p||^2/(2 sigma) = {!r} exceeds the objective '
+                      'at z = {!r}: p is not the minimiser (x = {}, z = {}, sigma = {})'
+                      .format(fp + qp + qzp, fz + qz, xv, zv, sg))
+    return info, None
+
+
+def run_group_objective(ctx):
+    rng = ctx.rng
+    recs, lines = [], []
+    for spec, sg, xv, zv, xc in group_cases(rng, ctx.quick):
+        info, prob = group_check(spec, sg, xv, zv)
+        desc = {'spec': spec, 'space': spec[1], 'sigma_kind': 'float', 'sigma': sg,
+                'x_class': 'group/' + xc, 'x': xv, 'z': zv}
+        kind = 'l1l2' if spec[0] == 'proximal_l1_l2' else 'huberg'
+        ctx.case(('group-objective', spec[0], spec[1], xc, spec[2] == 0.0), None)
+        ctx.hit('group-objective/space/' + spec[1])
+        if prob is not None:
+            lab = info['case'].label if 'case' in info else spec[0]
+            report(ctx, 'prox {} space={} sigma=float check=group-objective'.format(lab, spec[1]),
+                   prob, desc)
+        if info['status'] != 'ok':
+            ctx.err(info['status'])
+            continue
+        sp = zoo()[spec[1]]
+        d = len(sp)
+        m = fsize(sp) // d
+        pw = pw_of(sp)
+        w = weights(spec[1])
+        b = [w[i] / pw[0] for i in range(m)]
+        if kind == 'l1l2':
+            par, g = spec[2], spec[3]
+            ctx.hit('group-objective/data-term') if g is not None else None
+        else:
+            par, g = spec[2], None
+        lines.append('gobj kind={} pw={} d={} par={} g={} b={} s={} x={} z={}'.format(
+            kind, fl(pw), d, fs(par), tl(g), fl(b), fs(sg), fl(xv), fl(zv)))
+        recs.append((desc, kind, par, g, pw, d, m, sg, xv, info))
+    outs = core.run_driver('C07', lines)
+    for (desc, kind, par, g, pw, d, m, sg, xv, info), ans in zip(recs, outs):
+        if not ans.startswith('ok sq='):
+            ctx.disagree(desc, 'ok', ans[:120], stream='group-objective')
+            continue
+        f = dict(t.split('=', 1) for t in ans[3:].split(' '))
+        sq = f['sq'] == '1'
+        ctx.hit('group-objective/sq=' + f['sq'])
+        mp = core.pfl(f['p'])
+        ip = [core.frac(v) for v in info['p'].tolist()]
+        mfz, mfp, gap = core.pfrac(f['fz']), core.pfrac(f['fp']), core.pfrac(f['gap'])
+        # which branch of the formula each point-wise group takes (model side, for coverage)
+        gv = [0.0] * len(xv) if g is None else g
+        for i in range(m):
+            t2 = sum(core.frac(pw[k]) * core.frac(xv[k * m + i] - gv[k * m + i]) ** 2 for k in range(d))
+            thr = core.frac(sg) * core.frac(par) if kind == 'l1l2' else core.frac(par) + core.frac(sg)
+            if t2 == 0:
+                ctx.hit('group-objective/zero-group')
+            if kind == 'l1l2':
+                ctx.hit('group-objective/l1l2/' + ('threshold' if t2 == thr * thr else
+                                                   'zeroed' if t2 < thr * thr else 'shrunk'))
+            elif par == 0.0:
+                ctx.hit('group-objective/huberg/' + ('threshold' if t2 == thr * thr else
+                                                     'gamma0-zeroed' if t2 < thr * thr else 'gamma0-shrunk'))
+            else:
+                ctx.hit('group-objective/huberg/' + ('threshold' if t2 == thr * thr else
+                                                     'inner' if t2 < thr * thr else 'outer'))
+        # the theorem's inequality on this instance, in exact rational arithmetic (model side)
+        if (sq and gap < 0) or float(gap) < -1e-12 * max(1.0, abs(float(mfz))):
+            ctx.disagree(desc, 'gap >= 0 (C07.l1l2_groupObj_minimises / huberG_groupObj_minimises)',
+                         'gap = {} (sq={})'.format(gap, f['sq']), stream='group-objective')
+        # model vs real code: exact when both sides are exact, else the tolerance of DESIGN 4
+        exact = sq and mp == ip
+        scale = max([1.0] + [abs(float(v)) for v in xv])
+        bad = None
+        for i, (a, c) in enumerate(zip(mp, ip)):
+            if abs(float(a) - float(c)) > 1e-9 * scale + 1e-12:
+                bad = ('p[{}] = {!r}'.format(i, float(c)), 'p[{}] = {!r}'.format(i, float(a)))
+                break
+        if bad is None:
+            for nm, mv, iv in (('objective(z)', mfz, info['objz']), ('objective(prox(x))', mfp, info['objp'])):
+                if sq and core.frac(iv) == mv:
+                    continue
+                exact = False
+                if abs(float(mv) - iv) > 1e-9 * max(1.0, abs(iv)):
+                    bad = ('{} = {!r}'.format(nm, iv), '{} = {!r}'.format(nm, float(mv)))
+                    break
+        if bad is not None:
+            ctx.disagree(desc, bad[0], bad[1], stream='group-objective')
+        else:
+            ctx.hit('group-objective/' + ('exact' if exact else 'tolerance'))
 
 
 def malformed_specs(rng):
@@ -1899,6 +2136,15 @@ def search(ctx, broken):
                        rec_desc((case, sk, sg, xc, xlist, info, probs)))
             if len(ctx.violations) >= 20:
                 break
+        for _ in range(4):
+            for spec, sg, xv, zv, xc in group_cases(rng, False):
+                info, prob = group_check(spec, sg, xv, zv)
+                ctx.evaluations += 1
+                if prob is not None:
+                    report(ctx, 'prox {} space={} sigma=float check=group-objective'.format(
+                        info['case'].label if 'case' in info else spec[0], spec[1]), prob,
+                        {'spec': spec, 'space': spec[1], 'sigma_kind': 'float', 'sigma': sg,
+                         'x_class': 'group/' + xc, 'x': xv, 'z': zv})
     finally:
         ctx.tier = saved
 
@@ -1907,6 +2153,8 @@ def replay(ctx, case):
     """Re-run one recorded case on the real code."""
     if 'spec' not in case:
         return None
+    if 'z' in case and 'x' in case:     # stream group-objective
+        return group_check(case['spec'], case['sigma'], case['x'], case['z'])[1]
     try:
         c = build(case['spec'])
     except Exception as e:  # noqa
